@@ -20,7 +20,9 @@ for id in $IDS; do
     d2=$(VERIF_SEED=$seed HESIM_RUNS_DIV=$DIV HESIM_WORKERS=16 "$BIN" $id --tier quick | grep '^log_digest')
     d3=$(VERIF_SEED=$seed HESIM_RUNS_DIV=$DIV HESIM_WORKERS=1  "$BIN" $id --tier quick | grep '^log_digest')
     d4=$(VERIF_SEED=$seed HESIM_RUNS_DIV=$DIV HESIM_WORKERS=5  "$BIN" $id --tier quick | grep '^log_digest')
-    if [ -n "$d1" ] && [ "$d1" = "$d2" ] && [ "$d1" = "$d3" ] && [ "$d1" = "$d4" ]; then
+    if echo "$d1$d2$d3$d4" | grep -q "nondet_runs=[1-9]"; then
+      echo "not comparable $id seed=$seed  (some runs lost the baton to OS-level blocking: $d1 | $d2 | $d3 | $d4)"
+    elif [ -n "$d1" ] && [ "$d1" = "$d2" ] && [ "$d1" = "$d3" ] && [ "$d1" = "$d4" ]; then
       echo "deterministic  $id seed=$seed  $d1"
     else
       echo "DIFFERS        $id seed=$seed  [$d1] [$d2] [$d3] [$d4]"
